@@ -66,6 +66,15 @@ Framed(r) ==
   [ok |-> TRUE, code |-> r.code,
    info |-> [k \in 1..n |-> RStrip((IF k = n \/ (r.list /\ k > 1) THEN <<" ">> ELSE <<"-">>) \o r.lines[k])]]
 RoundTrip(rs) == Decoded(EncAll(rs)) = [k \in 1..Len(rs) |-> Framed(rs[k])]
+\* the same for whatever bytes a server really wrote: decoding them (by this specification's decoder) yields the
+\* original code and texts - each decoded line is one framing character followed by the (right-stripped) text
+Text(q) == IF q = <<>> THEN <<>> ELSE Tail(q)
+WireFaithful(rs, wire) ==
+  LET d == Decoded(wire) IN
+  /\ Len(d) = Len(rs)
+  /\ \A k \in 1..Len(rs) :
+        /\ d[k].ok /\ d[k].code = rs[k].code /\ Len(d[k].info) = Len(rs[k].lines)
+        /\ \A j \in 1..Len(rs[k].lines) : Text(d[k].info[j]) = RStrip(rs[k].lines[j])
 
 \* ---- masks ----------------------------------------------------------------------
 Min(a, b) == IF a < b THEN a ELSE b
@@ -84,7 +93,7 @@ ParseCmd(line) ==
 \* ---- judgement ----------------------------------------------------------------------
 Ok(c) ==
   CASE c.kind = "reply" ->
-         /\ c.wire = EncAll(c.replies)                         \* the server wrote exactly the encoding
+         /\ WireFaithful(c.replies, c.wire)                    \* what the server wrote is a faithful encoding (not necessarily Enc)
          /\ c.decoded = Decoded(c.wire)                       \* the client decoded it as specified, whatever the segmentation
          /\ RoundTrip(c.replies)                               \* and that is the round trip
     [] c.kind = "wire" -> c.decoded = Decoded(c.wire)        \* hand-made streams (mismatching continuation codes)
